@@ -7,7 +7,7 @@ M_C02, M_C03, M_C03G, M_C04, M_C05, M_C08, M_C09, M_C10, M_C15, M_C19, M_C06 = 9
 STEP_RULE = ('step mode: a real Core (+Synchronizer, MempoolDriver/PayloadWaiter, Proposer, Aggregator, RocksDB store) driven one dispatch at a time; '
              'scripted corpus first (the C02 witnesses), then seeded cases: block trees with TC-justified gaps, forks, orphaned tips, TCs reporting rounds above '
              'the block QC, locally shuffled/reversed delivery, payloads whose batches arrive before/after/never, votes, timeouts, TCs, timers, proposer digests, '
-             'committees of 2..10 members with equal or weighted (incl. zero) stakes, and a malformed stream (14 mutation kinds); '
+             'committees of 2..10 members with equal or weighted (incl. zero) stakes, and a malformed stream (16 mutation kinds); '
              'a case is non-trivial when the node voted or committed at least once; distinct = distinct event sequences')
 
 
@@ -18,7 +18,7 @@ def step_run(agree, monitors, quick=160, thorough=3000):
         mons = [m for m in monitors if case.get('admissible', True) or m != M_C02]
         return (agree, mons)
     return {'name': 'step', 'bin': 'step', 'mode': 'run', 'emit': 'step', 'quick': quick, 'thorough': thorough,
-            'agree': agree, 'monitors': monitors, 'layout': layout}
+            'agree': agree, 'monitors': monitors, 'layout': layout, 'timeout': 2400, 'coq_timeout': 1800}
 
 
 NODE_VO = ['Node.vo', 'Corr.vo', 'Monitors.vo', 'CorrMulti.vo', 'LeaderDefs.vo', 'QuorumDefs.vo', 'CorrComp.vo', 'CorrAgg.vo']
@@ -165,7 +165,7 @@ PROPS = {
     'C14': {
         'vo': ['ReliableDefs.vo', 'CorrComp.vo', 'CorrReliable.vo'],
         'sites': [],
-        'corr': [{'name': 'reliable', 'bin': 'sock', 'mode': 'reliable', 'emit': 'reliable', 'quick': 40, 'thorough': 400, 'agree': [1, 2, 3], 'monitors': [4, 5, 6, 7, 8, 9], 'timeout': 300}],
+        'corr': [{'name': 'reliable', 'bin': 'sock', 'mode': 'reliable', 'emit': 'reliable', 'realtime': True, 'quick': 40, 'thorough': 400, 'agree': [1, 2, 3], 'monitors': [4, 5, 6, 7, 8, 9], 'timeout': 300}],
         'rule': 'socket mode: the real ReliableSender (no tap) against a scripted loopback TCP peer speaking the real length-delimited framing: 2..4 connections per case made of down phases, full rounds, '
                 'early-close rounds and a final answer-everything round; sends, handle drops, replies, closes before/after any frame, refused connects, 7 MB frames to hit the write-error path; '
                 'the abstract event list is derived from what was observed; a case that times out is counted inconclusive, never as a disagreement',
@@ -183,7 +183,7 @@ PROPS = {
         'sites': ['g_pk_decode_exact', 'g_sk_decode_exact', 'g_helper_deser_guarded', 'g_seal_index_guarded'],
         'inventory': True,
         'corr': [{'name': 'malformed', 'bin': 'codec', 'mode': 'malformed', 'emit': 'codec_malformed', 'quick': 200, 'thorough': 4000, 'layout': malformed_layout},
-                 {'name': 'wired', 'bin': 'wired', 'mode': 'fuzz', 'emit': 'wired', 'quick': 12, 'thorough': 96, 'agree': [1, 11], 'monitors': [2, 3, 4, 5, 6], 'timeout': 600, 'coq_timeout': 900},
+                 {'name': 'wired', 'bin': 'wired', 'mode': 'fuzz', 'emit': 'wired', 'realtime': True, 'quick': 12, 'thorough': 96, 'agree': [1, 11], 'monitors': [2, 3, 4, 5, 6], 'timeout': 600, 'coq_timeout': 900},
                  step_run([RES], [M_C15], quick=100, thorough=2000),
                  {'name': 'batchmaker-bench', 'bin': 'comp', 'mode': 'batchmaker', 'features': 'bench', 'quick': 60, 'thorough': 1000, 'agree': [2], 'monitors': [5]}],
         'rule': CODEC_RULE + '; ' + STEP_RULE,
@@ -206,7 +206,7 @@ PROPS['C13'] = {
     'sites': ['g_batch_full', 'g_timer_seals', 'g_qw_threshold', 'g_ms_gc_skip', 'g_ms_gc_round', 'g_ms_gc_keep', 'g_ms_retry_due'],
     'corr': [{'name': 'msync', 'bin': 'pipeline', 'mode': 'msync', 'emit': 'msync', 'quick': 60, 'thorough': 1000, 'agree': [1, 2], 'monitors': [3, 4], 'timeout': 600},
              {'name': 'mhelper', 'bin': 'pipeline', 'mode': 'mhelper', 'emit': 'mhelper', 'quick': 60, 'thorough': 1000, 'agree': [1], 'monitors': [2, 3, 4, 5], 'timeout': 600},
-             {'name': 'e2e', 'bin': 'pipeline', 'mode': 'e2e', 'emit': 'e2e', 'quick': 40, 'thorough': 400, 'agree': [1], 'monitors': [2, 3, 4, 5, 6, 7, 8, 9], 'timeout': 900}],
+             {'name': 'e2e', 'bin': 'pipeline', 'mode': 'e2e', 'emit': 'e2e', 'realtime': True, 'quick': 40, 'thorough': 400, 'agree': [1], 'monitors': [2, 3, 4, 5, 6, 7, 8, 9], 'timeout': 900}],
     'rule': 'msync: the REAL mempool Synchronizer task against its model on seeded Synchronize/arrival/Cleanup/retry-tick sequences; mhelper: the REAL mempool Helper on stored batches, consensus blocks, junk, unknown digests and origins; '
             'e2e: a REAL Mempool::spawn on loopback TCP + MempoolDriver/PayloadWaiter on one store with the tap standing for the peers: transactions -> sealed batch -> quorum -> stored -> announced; block with a missing batch -> Synchronize -> BatchRequest -> batch arrives -> block released',
     'assumptions': ['PARTIAL: that ALL honest nodes commit under arbitrary load and delays is liveness (see C06) and is not proved', 'the synchronizer expressions (gc skip/round/keep, retry due) are regenerated from mempool/src/synchronizer.rs',
